@@ -184,28 +184,40 @@ def run_desc(case, st):
                 except Exception as e:  # noqa: BLE001
                     st.violation(f"C20:desc:raises:{type(e).__name__}:{case['transport']}", rc, d, repr(e)[:100])
                 st.outcome("desc ok")
-            # history: the table is edited in place (same size) through the public API, then used again
+            # history: the table is edited in place (same size), through the API and directly in the public dictionary
+            # attribute, then used again
             vals = list(table)
             if len(vals) >= 2:
                 a, b = vals[0], vals[1]
                 da, db = table[a], table[b]
-                h.var.od.add_value_description(a, db)
-                h.var.od.add_value_description(b, da)
-                for val, d in ((a, db), (b, da)):
-                    st.evaluations += 1
-                    st.nontrivial.add(("desc-edited", ti, t, val, case["transport"]))
-                    rc = dict(case, table=ti, type=t, val=val, edited=True)
+                for how in ("api", "dict"):
+                    def put(k, v):
+                        if how == "api":
+                            h.var.od.add_value_description(k, v)
+                        else:
+                            h.var.od.value_descriptions[k] = v
                     try:
-                        h.set_raw_bytes(vals[-1])
-                        h.var.desc = d
-                        if h.raw() != val:
-                            st.violation(f"C20:desc:set-after-table-edit:{case['transport']}", rc, val, h.raw())
-                        if h.var.desc != d:
-                            st.violation(f"C20:desc:get-after-table-edit:{case['transport']}", rc, d, h.var.desc)
-                    except Exception as e:  # noqa: BLE001
-                        st.violation(f"C20:desc:raises-after-table-edit:{type(e).__name__}", rc, d, repr(e)[:100])
-                h.var.od.add_value_description(a, da)
-                h.var.od.add_value_description(b, db)
+                        h.var.desc = da            # the table has been used (in both directions) before it is edited
+                        h.var.desc
+                    except Exception:  # noqa: BLE001
+                        pass
+                    put(a, db)
+                    put(b, da)
+                    for val, d in ((a, db), (b, da)):
+                        st.evaluations += 1
+                        st.nontrivial.add(("desc-edited", how, ti, t, val, case["transport"]))
+                        rc = dict(case, table=ti, type=t, val=val, edited=how)
+                        try:
+                            h.set_raw_bytes(vals[-1])
+                            h.var.desc = d
+                            if h.raw() != val:
+                                st.violation(f"C20:desc:set-after-table-edit:{how}:{case['transport']}", rc, val, h.raw())
+                            if h.var.desc != d:
+                                st.violation(f"C20:desc:get-after-table-edit:{how}:{case['transport']}", rc, d, h.var.desc)
+                        except Exception as e:  # noqa: BLE001
+                            st.violation(f"C20:desc:raises-after-table-edit:{how}:{type(e).__name__}", rc, d, repr(e)[:100])
+                    put(a, da)
+                    put(b, db)
     st.sample({"desc": case["transport"], "tables": [len(t) for t in tables]}, cap=2)
 
 
